@@ -5,7 +5,7 @@ from vlib import Case, hx
 
 HARNESS = "sim_driver"
 LEAN_MODULES = ["ViaProofs.C15"]
-REQUIRED_THEOREMS = []
+REQUIRED_THEOREMS = ['Via.C15_body_expect', 'Via.C15_chunk_expect', 'Via.C15_at_most_once', 'Via.C15_not_for_http10', 'Via.C15_reset']
 LEVEL = "proof"
 TRUSTED_BASE = S.SIM_TRUSTED
 ASSUMPTIONS = S.SIM_ASSUMPTIONS
